@@ -1105,8 +1105,7 @@ func renderVariableString(text string, ctx *RenderContext, w io.Writer) error {
 				if ctx.env != nil {
 					varValue, err = ctx.ApplyFilter(filterName, baseValue, filterArgs...)
 					if err != nil {
-						// Fall back to the unfiltered value
-						varValue = baseValue
+						return err
 					}
 				} else {
 					varValue = baseValue
